@@ -261,6 +261,9 @@ func c03Lookup(w *W, y int) {
 		w.Cur("C03 lookup " + key)
 		distract(q, qi)
 		l := solarOf(q).GetLunar()
+		if qi%6 == 3 {
+			digest1(l) // a Lunar that has already answered every other question (none of them may move its terms)
+		}
 		if l.GetYear() != q.Y || l.GetMonth() < 0 || qi%5 == 0 {
 			// the same moment built from the lunar side answers the same way (always for days whose lunar year is not the
 			// civil year, and in leap months): judged below in place of the civil-side object on alternate queries
